@@ -20,6 +20,12 @@ type PotVec struct {
 	F     []bool  `json:"folded"`
 	S     []int   `json:"strengths,omitempty"`
 	Order []int   `json:"insertion_order,omitempty"`
+	// Reports: 0 every seat is reported once; 1 every seat is reported again with the same figures
+	// (a list kept for the whole hand); 2 the round is followed live: every seat is first reported with
+	// half its final wager, then with the final one
+	Reports int `json:"reports,omitempty"`
+	// PerPot: the pots are settled one by one through Result.CalculatePot instead of Result.Calculate
+	PerPot bool `json:"per_pot,omitempty"`
 }
 
 // checkPots compares published pots with the reference partition; returns rule, message ("" = fine)
@@ -208,6 +214,8 @@ func genPotVec(r *rand.Rand) *PotVec {
 		v.S = append(v.S, 1+r.Intn(3))
 	}
 	v.Order = r.Perm(n)
+	v.Reports = []int{0, 0, 1, 2}[r.Intn(4)]
+	v.PerPot = r.Intn(3) == 0
 	return v
 }
 
@@ -220,8 +228,20 @@ func buildPots(v *PotVec) []*pot.Pot {
 			order[i] = i
 		}
 	}
+	if v.Reports == 2 {
+		for _, i := range order {
+			if v.C[i] >= 2 {
+				ll.AddContributor(v.C[i]/2, i, false)
+			}
+		}
+	}
 	for _, i := range order {
 		ll.AddContributor(v.C[i], i, v.F[i])
+	}
+	if v.Reports == 1 {
+		for k := len(order) - 1; k >= 0; k-- {
+			ll.AddContributor(v.C[order[k]], order[k], v.F[order[k]])
+		}
 	}
 	return ll.GetPots()
 }
@@ -349,7 +369,13 @@ func settleDirect(v *PotVec) (res *settlement.Result, pan interface{}) {
 			res.UpdateScore(i, v.S[i])
 		}
 	}
-	res.Calculate()
+	if v.PerPot {
+		for i, p := range res.Pots {
+			res.CalculatePot(i, p)
+		}
+	} else {
+		res.Calculate()
+	}
 	return
 }
 
